@@ -23,6 +23,16 @@ for i in range(1, 21):
     fns |= {f for f in rep.analysed_functions if f in P.functions}
     for f_ in rep.analysed_functions:
         props.setdefault(f_, []).append(pid)
+# every function of a module a property is anchored in (properties.jsonl anchors + pinned.EXTRA_SCOPE) carries the obligations of
+# that property, whether or not a hand-written rule looks at it
+for i in range(1, 21):
+    pid = f"C{i:02d}"
+    mods = pinned.scope(pid) | pinned.EXTRA_SCOPE.get(pid, set())
+    for q, fi in P.functions.items():
+        if fi.module.name in mods and isinstance(fi.node, __import__("ast").FunctionDef):
+            fns.add(q)
+            if pid not in props.setdefault(q, []):
+                props[q].append(pid)
 # local functions of the analysed functions carry the same obligations (they are part of the analysed body)
 todo = list(fns)
 while todo:
